@@ -54,17 +54,6 @@ fn free_port() -> u16 {
     l.local_addr().unwrap().port()
 }
 
-fn wait_listening(addr: SocketAddr, what: &str) {
-    let t0 = Instant::now();
-    while t0.elapsed() < Duration::from_secs(20) {
-        if TcpStream::connect_timeout(&addr, Duration::from_millis(200)).is_ok() {
-            return;
-        }
-        std::thread::sleep(Duration::from_millis(20));
-    }
-    die(&format!("{what} did not start listening on {addr}"));
-}
-
 fn take_panic() -> Option<String> {
     LAST_PANIC.lock().ok().and_then(|mut g| g.take()).map(|(f, l, m)| format!("{f}:{l}: {}", m.chars().take(200).collect::<String>()))
 }
@@ -93,51 +82,50 @@ fn unreg_sk() -> SecretKey {
 
 /// Serves a PublicTowerServices implementation over tonic and the REAL warp router in front of it, both on free
 /// loopback ports, the way teos/src/main.rs does.  Returns the HTTP address.
-fn serve<S: PublicTowerServices>(rt: &tokio::runtime::Runtime, svc: S) -> SocketAddr {
+fn serve<S: PublicTowerServices + Clone>(rt: &tokio::runtime::Runtime, svc: S) -> SocketAddr {
+    // the ports are probed and then bound by tonic / warp themselves: a lost race for a port is retried
     for _attempt in 0..5 {
         let grpc: SocketAddr = format!("127.0.0.1:{}", free_port()).parse().unwrap();
         let (shutdown_trigger, shutdown_signal) = triggered::trigger();
-        std::mem::forget(shutdown_trigger);
         let sig_grpc = shutdown_signal.clone();
-        let server = PublicTowerServicesServer::new(svc);
-        let bound = Arc::new(Mutex::new(None::<bool>));
-        let bound2 = bound.clone();
-        // tonic binds inside serve_with_shutdown; a lost race for the port shows as an early error
-        let handle = rt.spawn(async move {
+        let server = PublicTowerServicesServer::new(svc.clone());
+        let failed = Arc::new(Mutex::new(false));
+        let failed2 = failed.clone();
+        rt.spawn(async move {
             let r = tonic::transport::Server::builder().add_service(server).serve_with_shutdown(grpc, sig_grpc).await;
-            *bound2.lock().unwrap() = Some(r.is_ok());
+            if r.is_err() {
+                *failed2.lock().unwrap() = true;
+            }
         });
         let t0 = Instant::now();
         let mut ok = false;
-        while t0.elapsed() < Duration::from_secs(10) {
-            if bound.lock().unwrap().is_some() {
-                break;
-            }
+        while t0.elapsed() < Duration::from_secs(10) && !*failed.lock().unwrap() {
             if TcpStream::connect_timeout(&grpc, Duration::from_millis(200)).is_ok() {
                 ok = true;
                 break;
             }
             std::thread::sleep(Duration::from_millis(10));
         }
-        if !ok {
-            handle.abort();
-            die("the tonic server did not come up");
+        if !ok || *failed.lock().unwrap() {
+            shutdown_trigger.trigger();
+            continue;
         }
         let http: SocketAddr = format!("127.0.0.1:{}", free_port()).parse().unwrap();
         let (ready_trigger, ready_signal) = triggered::trigger();
         rt.spawn(teos::api::http::serve(http, grpc, ready_trigger, shutdown_signal));
-        let ready = rt.block_on(async move { tokio::time::timeout(Duration::from_secs(20), ready_signal).await.is_ok() });
-        if !ready {
-            die("the HTTP API did not become ready");
+        let ready = rt.block_on(async move { tokio::time::timeout(Duration::from_secs(15), ready_signal).await.is_ok() });
+        if !ready || TcpStream::connect_timeout(&http, Duration::from_secs(2)).is_err() {
+            shutdown_trigger.trigger();
+            continue;
         }
-        wait_listening(http, "the HTTP API");
+        std::mem::forget(shutdown_trigger);
         return http;
     }
-    unreachable!()
+    die("could not bring the tonic server and the HTTP API up on loopback ports");
 }
 
 fn runtime() -> tokio::runtime::Runtime {
-    tokio::runtime::Builder::new_multi_thread().worker_threads(4).enable_all().build().unwrap()
+    tokio::runtime::Builder::new_multi_thread().worker_threads(8).enable_all().build().unwrap()
 }
 
 // ---------------------------------------------------------------------------------------------------
@@ -145,6 +133,9 @@ fn runtime() -> tokio::runtime::Runtime {
 
 struct StateReader {
     conn: rusqlite::Connection,
+    /// (PRAGMA data_version, dump) of the last full read: the tables are only read again after another connection
+    /// (the tower's) has committed something
+    cache: std::cell::RefCell<Option<(i64, BTreeMap<String, String>)>>,
 }
 
 impl StateReader {
@@ -154,11 +145,28 @@ impl StateReader {
             rusqlite::OpenFlags::SQLITE_OPEN_READ_ONLY | rusqlite::OpenFlags::SQLITE_OPEN_NO_MUTEX,
         )
         .unwrap_or_else(|e| die(&format!("cannot open {db:?} read-only: {e}")));
-        StateReader { conn }
+        StateReader { conn, cache: std::cell::RefCell::new(None) }
     }
 
-    /// table name -> every row, every column, sorted
+    fn data_version(&self) -> i64 {
+        self.conn.query_row("PRAGMA data_version", [], |r| r.get::<_, i64>(0)).unwrap_or(-1)
+    }
+
+    /// table name -> every row, every column, sorted (re-read only when the file was committed to since the last read)
     fn dump(&self) -> BTreeMap<String, String> {
+        let v = self.data_version();
+        if let Some((cv, d)) = self.cache.borrow().as_ref() {
+            if *cv == v && v >= 0 {
+                return d.clone();
+            }
+        }
+        let d = self.dump_tables();
+        // a commit may have landed while the tables were being read: keep the version seen BEFORE the read
+        *self.cache.borrow_mut() = Some((v, d.clone()));
+        d
+    }
+
+    fn dump_tables(&self) -> BTreeMap<String, String> {
         let mut out = BTreeMap::new();
         let tables: Vec<String> = {
             let mut st = self.conn.prepare("SELECT name FROM sqlite_master WHERE type='table' ORDER BY name").unwrap();
@@ -199,9 +207,17 @@ fn mem_dump(rig: &Rig) -> String {
     let t = rig.tower.as_ref().unwrap();
     let r = catch_unwind(AssertUnwindSafe(|| {
         let (h, users) = t.gatekeeper.verif_state();
-        let mut rows: Vec<String> = users.iter().map(|(id, s, st, e)| format!("{}:{s}:{st}:{e}", hex::encode(id.to_vec()))).collect();
-        rows.sort();
-        format!("h{h};{}", rows.join(";"))
+        // order-independent digest of (user, slots, start, expiry) records
+        let mut acc: u64 = 0;
+        for (id, s, st, e) in users.iter() {
+            let mut x: u64 = 0xcbf29ce484222325;
+            for b in id.to_vec().iter().copied().chain(s.to_be_bytes()).chain(st.to_be_bytes()).chain(e.to_be_bytes()) {
+                x ^= b as u64;
+                x = x.wrapping_mul(0x100000001b3);
+            }
+            acc = acc.wrapping_add(x);
+        }
+        format!("h{h};n{};{acc:016x}", users.len())
     }));
     match r {
         Ok(s) => s,
@@ -456,7 +472,7 @@ fn boot_tower_a(wd: &Path) -> Rig {
     if !rig.poll() {
         die("tower A: poll failed");
     }
-    for _ in 0..60 {
+    for _ in 0..30 {
         expect_code(&rig.register(U_REG), "ok", "register(reg)");
     }
     expect_code(&rig.add(U_REG, LOC_WATCHED, &blob_spec(LOC_WATCHED), 42, "valid"), "ok", "add(watched)");
@@ -1153,16 +1169,135 @@ fn joint_case(rt: &tokio::runtime::Runtime, addr: &NetAddr, tower_id: TowerId, c
     }
 }
 
-fn wire_mode(cases: &str, results: &str, wd: &Path) {
-    let rt = runtime();
-    // scripted tower behind the real router, recorded by a proxy
-    let script = Arc::new(Mutex::new(Script::default()));
-    let http = serve(&rt, Scripted(script.clone()));
-    let log: WireLog = Arc::new(Mutex::new((Vec::new(), Vec::new())));
-    let proxy = start_proxy(&rt, http, log.clone());
-    let addr = NetAddr::new(format!("http://127.0.0.1:{}", proxy.port()));
+struct Lane {
+    script: Arc<Mutex<Script>>,
+    log: WireLog,
+    addr: NetAddr,
+}
+
+/// The plugin's conversion of what CLN hands it (watchtower-plugin/src/convert.rs): a commitment_revocation hook payload
+/// and the parameters of getappointment.  The locator the client derives from a transaction id must be the one the
+/// tower derives from the transaction.
+fn convert_case(c: &Value) -> Value {
+    use std::convert::TryFrom;
+    let r = catch_unwind(AssertUnwindSafe(|| {
+        let tx = verif_harness::chain::unique_tx(0xc1, c["n"].as_u64().unwrap_or(1));
+        let txid = tx.compute_txid();
+        let penalty = verif_harness::chain::spend_tx(&tx, 1, c["pad"].as_u64().unwrap_or(0) as usize);
+        let penalty_hex = hex::encode(bitcoin::consensus::serialize(&penalty));
+        let mut out = json!({"real_txid_display": txid.to_string(), "tower_locator_of_real_tx": hex::encode(Locator::new(txid).to_vec())});
+        for (name, display) in [("given", str_of(&c["commitment_txid"])), ("real", txid.to_string())] {
+            let hook = json!({"channel_id": "aa".repeat(32), "commitnum": c["commitnum"], "commitment_txid": display, "penalty_tx": penalty_hex});
+            out[name] = match serde_json::from_value::<watchtower_plugin::convert::CommitmentRevocation>(hook) {
+                Ok(cr) => json!({
+                    "locator": hex::encode(Locator::new(cr.commitment_txid).to_vec()),
+                    "commit_num": cr.commit_num,
+                    "penalty_tx_same": cr.penalty_tx == penalty,
+                }),
+                Err(e) => json!({"error": e.to_string()}),
+            };
+        }
+        let tower_id = hex::encode(tower_key().1.serialize());
+        for (name, params) in [
+            ("get_params_array", json!([tower_id, c["locator"]])),
+            ("get_params_object", json!({"tower_id": tower_id, "locator": c["locator"]})),
+        ] {
+            out[name] = match watchtower_plugin::convert::GetAppointmentParams::try_from(params) {
+                Ok(p) => json!({"locator": hex::encode(p.locator.to_vec()), "tower_id": hex::encode(p.tower_id.to_vec())}),
+                Err(e) => json!({"error": e.to_string()}),
+            };
+        }
+        out["tower_id"] = json!(tower_id);
+        out
+    }));
+    match r {
+        Ok(v) => v,
+        Err(_) => json!({"kind": "panic", "what": take_panic()}),
+    }
+}
+
+/// One scripted exchange (or one joint sequence) of the wire mode.
+fn wire_case(rt: &tokio::runtime::Runtime, lane: &Lane, real_addr: &NetAddr, real_id: TowerId, mut c: Value) -> Value {
     let (tower_sk, tower_pk) = tower_key();
     let tower_id = TowerId(tower_pk);
+    if c["ep"] == "joint" {
+        let v = joint_case(rt, real_addr, real_id, &c);
+        return json!({"id": c["id"], "joint": v, "tower_id": hex::encode(real_id.to_vec())});
+    }
+    if c["ep"] == "convert" {
+        return json!({"id": c["id"], "convert": convert_case(&c)});
+    }
+    // a reply signature the client can verify: the tower's signature over the receipt the client will build
+    if c["reply"]["kind"] == "ok" && c["ep"] == "add_appointment" && c["sign_reply"].as_bool().unwrap_or(false) {
+        let receipt = AppointmentReceipt::new(str_of(&c["req"]["signature"]), u32_of(&c["reply"]["start_block"]));
+        c["reply"]["signature"] = json!(cryptography::sign(&receipt.to_vec(), &tower_sk));
+    }
+    if c["reply"]["kind"] == "ok" && c["ep"] == "register" && c["sign_reply"].as_bool().unwrap_or(false) {
+        if let Ok(uid) = UserId::from_slice(&bytes_of(&c["req"]["user_id"])) {
+            let mut receipt = RegistrationReceipt::new(
+                uid,
+                u32_of(&c["reply"]["available_slots"]),
+                u32_of(&c["reply"]["subscription_start"]),
+                u32_of(&c["reply"]["subscription_expiry"]),
+            );
+            receipt.sign(&tower_sk);
+            c["reply"]["subscription_signature"] = json!(receipt.signature().unwrap());
+        }
+    }
+    {
+        let mut s = lane.script.lock().unwrap();
+        s.captured.clear();
+        s.reply = c["reply"].clone();
+        let mut l = lane.log.lock().unwrap();
+        l.0.clear();
+        l.1.clear();
+    }
+    let client = client_call(rt, &lane.addr, tower_id, &c);
+    let captured = lane.script.lock().unwrap().captured.clone();
+    let (req_raw, rep_raw) = {
+        let l = lane.log.lock().unwrap();
+        (l.0.clone(), l.1.clone())
+    };
+    json!({
+        "id": c["id"],
+        "scripted_reply": c["reply"],
+        "captured": captured,
+        "client": client,
+        "wire_request_hex": hex::encode(&req_raw),
+        "wire_reply_hex": hex::encode(&rep_raw),
+        "layouts": layouts(&c),
+        "tower_id": hex::encode(tower_id.to_vec()),
+    })
+}
+
+fn wire_mode(cases: &str, results: &str, wd: &Path) {
+    // The client builds a fresh reqwest client (and with it a TLS context that loads the system's CA bundle, ~100 ms
+    // of CPU under OpenSSL 3) for every request.  Everything here is plain HTTP on loopback: point OpenSSL at a store
+    // holding a single certificate.  This is process environment of the rig, not a change of the client.
+    let empty_dir = wd.join("no_certs");
+    std::fs::create_dir_all(&empty_dir).unwrap();
+    let bundle = std::env::var("SSL_CERT_FILE").unwrap_or_else(|_| "/etc/ssl/certs/ca-certificates.crt".to_string());
+    if let Ok(text) = std::fs::read_to_string(&bundle) {
+        const END: &str = "-----END CERTIFICATE-----";
+        if let Some(i) = text.find(END) {
+            let one = wd.join("one_cert.pem");
+            std::fs::write(&one, format!("{}\n", &text[..i + END.len()])).unwrap();
+            std::env::set_var("SSL_CERT_FILE", &one);
+            std::env::set_var("SSL_CERT_DIR", &empty_dir);
+        }
+    }
+    let rt = runtime();
+    // lanes: each is a scripted tower behind its own instance of the real router, recorded by its own proxy
+    let n_lanes = std::thread::available_parallelism().map(|n| n.get()).unwrap_or(4).clamp(2, 8);
+    let lanes: Vec<Lane> = (0..n_lanes)
+        .map(|_| {
+            let script = Arc::new(Mutex::new(Script::default()));
+            let http = serve(&rt, Scripted(script.clone()));
+            let log: WireLog = Arc::new(Mutex::new((Vec::new(), Vec::new())));
+            let proxy = start_proxy(&rt, http, log.clone());
+            Lane { script, log, addr: NetAddr::new(format!("http://127.0.0.1:{}", proxy.port())) }
+        })
+        .collect();
     // a real tower for the joint cases
     let db = wd.join("tower_joint.sql3");
     let _ = std::fs::remove_file(&db);
@@ -1172,80 +1307,39 @@ fn wire_mode(cases: &str, results: &str, wd: &Path) {
         die("the joint tower did not boot");
     }
     let real_http = serve(&rt, real.tower.as_ref().unwrap().api.clone());
-    let real_log: WireLog = Arc::new(Mutex::new((Vec::new(), Vec::new())));
-    let real_proxy = start_proxy(&rt, real_http, real_log.clone());
-    let real_addr = NetAddr::new(format!("http://127.0.0.1:{}", real_proxy.port()));
+    let real_addr = NetAddr::new(format!("http://127.0.0.1:{}", real_http.port()));
     let real_id = TowerId(real.tower.as_ref().unwrap().tower_pk);
     let _ = take_panic();
 
     let input = BufReader::new(std::fs::File::open(cases).unwrap_or_else(|e| die(&format!("cannot read {cases}: {e}"))));
-    let mut out = std::io::BufWriter::new(std::fs::File::create(results).unwrap());
-    let mut n = 0usize;
-    for line in input.lines() {
-        let line = line.unwrap();
-        if line.trim().is_empty() {
-            continue;
-        }
-        let mut c: Value = serde_json::from_str(&line).unwrap_or_else(|e| die(&format!("bad case line: {e}")));
-        let res = if c["ep"] == "joint" {
-            {
-                let mut l = real_log.lock().unwrap();
-                l.0.clear();
-                l.1.clear();
-            }
-            let v = joint_case(&rt, &real_addr, real_id, &c);
-            json!({"id": c["id"], "joint": v, "tower_id": hex::encode(real_id.to_vec())})
-        } else {
-            // a reply signature the client can verify: the tower's signature over the receipt the client will build
-            if c["reply"]["kind"] == "ok" && c["ep"] == "add_appointment" && c["sign_reply"].as_bool().unwrap_or(false) {
-                let receipt = AppointmentReceipt::new(str_of(&c["req"]["signature"]), u32_of(&c["reply"]["start_block"]));
-                c["reply"]["signature"] = json!(cryptography::sign(&receipt.to_vec(), &tower_sk));
-            }
-            if c["reply"]["kind"] == "ok" && c["ep"] == "register" && c["sign_reply"].as_bool().unwrap_or(false) {
-                if let Ok(uid) = UserId::from_slice(&bytes_of(&c["req"]["user_id"])) {
-                    let mut receipt = RegistrationReceipt::new(
-                        uid,
-                        u32_of(&c["reply"]["available_slots"]),
-                        u32_of(&c["reply"]["subscription_start"]),
-                        u32_of(&c["reply"]["subscription_expiry"]),
-                    );
-                    receipt.sign(&tower_sk);
-                    c["reply"]["subscription_signature"] = json!(receipt.signature().unwrap());
+    let all: Vec<Value> = input
+        .lines()
+        .map(|l| l.unwrap())
+        .filter(|l| !l.trim().is_empty())
+        .map(|l| serde_json::from_str(&l).unwrap_or_else(|e| die(&format!("bad case line: {e}"))))
+        .collect();
+    let collected: Mutex<Vec<(usize, Value)>> = Mutex::new(Vec::with_capacity(all.len()));
+    std::thread::scope(|s| {
+        for (li, lane) in lanes.iter().enumerate() {
+            let (rt, all, collected, real_addr) = (&rt, &all, &collected, &real_addr);
+            s.spawn(move || {
+                for (idx, c) in all.iter().enumerate().filter(|(i, _)| i % n_lanes == li) {
+                    let res = wire_case(rt, lane, real_addr, real_id, c.clone());
+                    collected.lock().unwrap().push((idx, res));
                 }
-            }
-            {
-                let mut s = script.lock().unwrap();
-                s.captured.clear();
-                s.reply = c["reply"].clone();
-                let mut l = log.lock().unwrap();
-                l.0.clear();
-                l.1.clear();
-            }
-            let client = client_call(&rt, &addr, tower_id, &c);
-            let captured = script.lock().unwrap().captured.clone();
-            let (req_raw, rep_raw) = {
-                let l = log.lock().unwrap();
-                (l.0.clone(), l.1.clone())
-            };
-            json!({
-                "id": c["id"],
-                "scripted_reply": c["reply"],
-                "captured": captured,
-                "client": client,
-                "wire_request_hex": hex::encode(&req_raw),
-                "wire_reply_hex": hex::encode(&rep_raw),
-                "layouts": layouts(&c),
-                "tower_id": hex::encode(tower_id.to_vec()),
-                "panic": take_panic(),
-            })
-        };
-        serde_json::to_writer(&mut out, &res).unwrap();
+            });
+        }
+    });
+    let mut collected = collected.into_inner().unwrap();
+    collected.sort_by_key(|(i, _)| *i);
+    let mut out = std::io::BufWriter::new(std::fs::File::create(results).unwrap());
+    for (_, res) in &collected {
+        serde_json::to_writer(&mut out, res).unwrap();
         out.write_all(b"\n").unwrap();
-        n += 1;
     }
     out.flush().unwrap();
     drop(real.tower.take());
-    println!("{}", json!({"cases": n}));
+    println!("{}", json!({"cases": collected.len(), "lanes": n_lanes, "panics_seen": take_panic()}));
 }
 
 fn main() {
